@@ -16,8 +16,8 @@ func init() { register("C09", checkC09) }
 
 type specTok struct {
 	N, Txt, T, Op, D, Asg string
-	Prec, Args           int
-	Post                 bool
+	Prec, Args            int
+	Post                  bool
 }
 
 // detail of a real expression node, in the vocabulary of the table's `d` field
